@@ -17,7 +17,7 @@
 (* The lexical grammar of DOT itself is not re-specified.                      *)
 EXTENDS Integers, Sequences, FiniteSets, TLC, Json
 
-CONSTANTS Mode,   \* "roles" | "pairs" | "shapes"
+CONSTANTS Mode,   \* "roles" | "pairs" | "shapes" | "multi" (multigraphs: parallel lines, MarshalMulti / UnmarshalMulti)
           Seed, Shard, NShards, Emit
 
 VARIABLE val
@@ -97,7 +97,18 @@ Shapes(d) == {[dir |-> d, role |-> "shape",
                 : E \in SUBSET PairsOf(d), a \in BOOLEAN,
                   t \in {u \in 0 .. 3 : Cardinality({Pick(1 + 3 * u), Pick(2 + 3 * u), Pick(3 + 3 * u)}) = 3}}
 
-Space == IF Mode = "roles" THEN Roles(TRUE) \cup Roles(FALSE)
+\* "multi": two nodes with seed-chosen hostile names and every multiset of up to three lines between them, each
+\* line with its own attribute value and port taken from the pool
+LineKinds(d) == IF d THEN {<<1, 2>>, <<2, 1>>} ELSE {<<1, 2>>}
+Multi(d) == {[dir |-> d, role |-> "multi",
+              nodes |-> <<NodeR(Pick(1 + t), <<>>), NodeR(Pick(2 + t), <<Attr(Lbl, Pick(3 + t))>>)>>,
+              edges |-> [k \in 1 .. Len(ls) |->
+                           EdgeR(ls[k][1], ls[k][2], <<Attr(Lbl, Pick(k + t + 4))>>, Pick(k + t + 9), <<>>, <<>>, <<>>)]]
+               : ls \in UNION {[1 .. n -> LineKinds(d)] : n \in 1 .. 3},
+                 t \in {u \in 0 .. 40 : Pick(1 + u) # Pick(2 + u)}}
+
+Space == IF Mode = "multi" THEN Multi(TRUE) \cup Multi(FALSE)
+         ELSE IF Mode = "roles" THEN Roles(TRUE) \cup Roles(FALSE)
          ELSE IF Mode = "pairs" THEN Pairs(TRUE) \cup Pairs(FALSE)
          ELSE Shapes(TRUE) \cup Shapes(FALSE)
 
@@ -114,7 +125,7 @@ WellFormed == /\ \A i, j \in DOMAIN val.nodes : val.nodes[i].id = val.nodes[j].i
               /\ \A e \in Rng(val.edges) : e.u \in DOMAIN val.nodes /\ e.v \in DOMAIN val.nodes /\ e.u # e.v
                                            /\ Exact(e.fp) /\ Exact(e.tp)
               /\ \A i, j \in DOMAIN val.edges :
-                    (i # j) => {val.edges[i].u, val.edges[i].v} # {val.edges[j].u, val.edges[j].v}
+                    (i # j /\ Mode # "multi") => {val.edges[i].u, val.edges[i].v} # {val.edges[j].u, val.edges[j].v}
                                \/ (val.dir /\ val.edges[i].u # val.edges[j].u)
 \* the classification is total, and the identity expectation preserves distinctness
 ClassTotal == \A s \in Pool : Class(s) \in {"plain", "html", "lexical"} /\ (Exact(s) => Expected(s) = s)
